@@ -26,8 +26,11 @@ package config
 //@   ensures cmd == cmdOf(ctx)
 
 //@ func strictRegex [C09, C18]
-//@   requires reCompiles("^" + s + "$")
-//@   ensures result != nil && rePattern(result) == "^" + s + "$"
+// C09: "fully anchored": the whole pattern is anchored, also when it is a top-level alternation (`foo|bar` must not
+// match `foobaz` or `xxbar`), so the pattern is grouped before the anchors are added
+// (a pattern without `|` has no top-level alternation, for it "^" + s + "$" is the same language as "^(?:" + s + ")$")
+//@   requires reCompiles(anchored(s))
+//@   ensures result != nil && rePattern(result) == anchored(s)
 //@   safe regexp-must-compile
 
 //@ func parseMatchOperation [C09]
@@ -59,7 +62,7 @@ package config
 //@   loop 1 invariant forall i int :: 0 <= i && i < iter ==> !stOK(states[i], state)
 //@   safe
 
-//@ spec func anchored(p string) string = "^" + p + "$"
+//@ spec func anchored(p string) string = pureCall("strings.Contains", p, "|") ? "^(?:" + p + ")$" : "^" + p + "$"
 //@ spec func cmdOK(m Match, cmd ContextCommandVal) bool = m.Command == nil || cmd == *m.Command
 //@ spec func stateOK(m Match, e discovery.Entry) bool = len(m.State) == 0 || stateAny(m.State, e.State)
 //@ spec func kindOK(m Match, e discovery.Entry) bool = m.Kind == "" ||
@@ -270,8 +273,8 @@ package config
 // C18: an accepted configuration never crashes a later lint run.
 // validated facts flow from the validate() functions (load time) to the use sites (lint time): every pattern that
 // reaches regexp.MustCompile at lint time was compiled successfully at load time.
-// A5-re: anchoring a valid pattern with ^...$ keeps it valid.
-//@ axiom re_anchor: forall p string :: reCompiles(p) ==> reCompiles("^" + p + "$")
+// A5-re: anchoring a valid pattern with ^(?:...)$ keeps it valid.
+//@ axiom re_anchor: forall p string :: reCompiles(p) ==> reCompiles("^(?:" + p + ")$") && reCompiles("^" + p + "$")
 
 //@ spec func matchValid(m Match) bool = reCompiles(m.Path) && reCompiles(m.Name) &&
 //@      (m.Label != nil ==> reCompiles(m.Label.Key) && reCompiles(m.Label.Value)) &&
